@@ -13,8 +13,16 @@
 (*   ColCons   J = free columns; float constrain: lhs[~J] = constrain[~J]  *)
 (*   RowCons   I = J, or ~rconstrain                                       *)
 (*   Reduce    B = A[I,J], r = (rhs - A lhs)[I]; B must be square          *)
-(*   SubSolve  _solver: r = 0 -> zeros (no factorisation); det B = 0 ->    *)
-(*             MatrixError; else dx = B^-1 r                               *)
+(*   SubSolve  _solver entry: |r| <= atol -> zeros (no factorisation)       *)
+(*   Method    the named solver with the named preconditioner:             *)
+(*             precon "direct" (LU): det B = 0 -> MatrixError, else the    *)
+(*             exact dx = B^-1 r (solver "direct" applies it once, solver  *)
+(*             "arnoldi" converges in its first Krylov step);              *)
+(*             precon "diag": zero diagonal entry -> MatrixError; solver   *)
+(*             "direct" returns the INEXACT dx = D^-1 r; "arnoldi" returns *)
+(*             the exact answer or stalls at any iterate (nondeterministic)*)
+(*   Certify   resnorm = |r - B dx|; atol > 0 and not resnorm <= atol ->   *)
+(*             ToleranceNotReached                                         *)
 (*   Update    lhs[J] += dx; return                                        *)
 (* and for solve_constraints (kind "droptol") and the lsqr branch of        *)
 (* Topology.project (kind "project", src/nutils/topology.py:466-495):      *)
@@ -34,6 +42,7 @@ CONSTANTS N,         \* dimension (1..3)
           RhsVals,   \* right hand side entries
           DropTols,  \* drop tolerances (entries with |a| <= droptol are "no influence")
           Kinds,     \* subset of {"solve", "droptol", "project"}
+          CertifyDirect, \* TRUE: as the code is; FALSE: design mutant that trusts the "direct" solver and skips Certify for it
           Given,     \* TRUE: the inputs are the records of the JSON file IOEnv.VF_TABLE (chosen by the harness,
                      \*       any lhs0 / constraint values), FALSE: all inputs over Ent / RhsVals
           Emitting
@@ -74,26 +83,26 @@ RedRhs(A, b, v, rows) == LET ri == IdxSeq(rows) IN [i \in 1..Len(ri) |-> b[ri[i]
 \* rconstrain requires a boolean constrain)
 SolveCons == {c \in [ck : {"none", "bool", "float"}, cm : Masks, rk : BOOLEAN, rm : Masks] :
                  /\ (c.ck = "none" => c.cm = AllFree) /\ (c.rk => c.ck = "bool") /\ (~c.rk => c.rm = AllFree)}
-SolveInput(a, b, h, c) == [kind |-> "solve", A |-> a, b |-> b, hasl0 |-> h, l0 |-> IF h THEN L0 ELSE Zero,
-                           ck |-> c.ck, cm |-> c.cm, rk |-> c.rk, rm |-> c.rm, dtol |-> 0]
+Methods == {<<"direct", "direct", 0>>, <<"direct", "diag", 0>>, <<"direct", "diag", 1>>, <<"direct", "diag", 2>>,
+            <<"arnoldi", "direct", 1>>, <<"arnoldi", "diag", 1>>, <<"direct", "direct", 2>>}
+SolveInput(a, b, h, c, m) == [kind |-> "solve", A |-> a, b |-> b, hasl0 |-> h, l0 |-> IF h THEN L0 ELSE Zero,
+                           ck |-> c.ck, cm |-> c.cm, rk |-> c.rk, rm |-> c.rm, dtol |-> 0, solver |-> m[1], precon |-> m[2], atol |-> m[3]]
 \* solve_constraints: symmetric matrix, prior float constraints cm (values CV), no initial guess
 Sym(a) == [i \in Idx |-> [j \in Idx |-> IF i <= j THEN a[i][j] ELSE a[j][i]]]
 DropInput(kind, a, b, cm, d) == [kind |-> kind, A |-> Sym(a), b |-> b, hasl0 |-> FALSE, l0 |-> Zero, ck |-> "float", cm |-> cm,
-                           rk |-> FALSE, rm |-> AllFree, dtol |-> d]
+                           rk |-> FALSE, rm |-> AllFree, dtol |-> d, solver |-> "direct", precon |-> "direct", atol |-> 0]
 \* inputs handed in by the harness (JSON via the environment): same record shape
 GivenInputs == IF Given THEN JsonDeserialize(IOEnv.VF_TABLE) ELSE <<>>
 
 CV == IF Given THEN inp.cv ELSE CVfix
-NoInput == [kind |-> "none", A |-> [i \in Idx |-> Zero], b |-> Zero, hasl0 |-> FALSE, l0 |-> Zero, ck |-> "none", cm |-> AllFree,
-            rk |-> FALSE, rm |-> AllFree, dtol |-> 0]
 NoRed == [k |-> 0, B |-> <<>>, r |-> <<>>, square |-> TRUE]
-NoSol == [num |-> <<>>, den |-> 1, short |-> FALSE]
+NoSol == [num |-> <<>>, den |-> 1, short |-> FALSE, exact |-> TRUE]
 NoOut == [num |-> Zero, den |-> 1, nan |-> AllFree]
 
 Init == /\ pc = "enter"
         /\ IF Given
            THEN \E n \in 1..Len(GivenInputs) : inp = GivenInputs[n]
-           ELSE \/ "solve" \in Kinds /\ \E a \in [Idx -> Vec(Ent)], b \in Vec(RhsVals), h \in BOOLEAN, c \in SolveCons : inp = SolveInput(a, b, h, c)
+           ELSE \/ "solve" \in Kinds /\ \E a \in [Idx -> Vec(Ent)], b \in Vec(RhsVals), h \in BOOLEAN, c \in SolveCons, m \in Methods : inp = SolveInput(a, b, h, c, m)
                 \/ \E kind \in Kinds \ {"solve"}, a \in [Idx -> Vec(Ent)], b \in Vec(RhsVals), cm \in Masks, d \in DropTols :
                       a = Sym(a) /\ inp = DropInput(kind, a, b, cm, d)
         /\ lhs = Zero /\ J = AllFree /\ I = AllFree /\ red = NoRed /\ sol = NoSol
@@ -148,14 +157,47 @@ Reduce == /\ pc = "reduce"
                   /\ pc' = "subsolve" /\ UNCHANGED outcome
           /\ UNCHANGED <<inp, lhs, J, I, sol, out>>
 
+\* squared Euclidean norm of an integer vector of length k
+Norm2(v, k) == LET S[i \in 0..k] == IF i = 0 THEN 0 ELSE S[i - 1] + v[i] * v[i] IN S[k]
+\* numerator of the residual r - B (num / den) over the common denominator den
+ResNum(B, k, r, num, den) == [i \in 1..k |-> r[i] * den - (LET S[c \in 0..k] == IF c = 0 THEN 0 ELSE S[c - 1] + B[i][c] * num[c] IN S[k])]
+DiagProd(B, k, skip) == LET P[i \in 0..k] == IF i = 0 THEN 1 ELSE P[i - 1] * (IF i = skip THEN 1 ELSE B[i][i]) IN P[k]
+
+\* _solver entry: rhsnorm <= atol -> zeros without touching the solver (for atol = 0: only the zero right hand side)
 SubSolve == /\ pc = "subsolve"
-            /\ IF \A i \in 1..red.k : red.r[i] = 0
-               THEN sol' = [num |-> [i \in 1..red.k |-> 0], den |-> 1, short |-> TRUE] /\ pc' = "update" /\ UNCHANGED outcome
-               ELSE IF Det(red.B, red.k) = 0
-                    THEN outcome' = "MatrixError" /\ pc' = "done" /\ UNCHANGED sol
-                    ELSE sol' = [num |-> Cramer(red.B, red.k, red.r), den |-> Det(red.B, red.k), short |-> FALSE]
-                         /\ pc' = "update" /\ UNCHANGED outcome
-            /\ UNCHANGED <<inp, lhs, J, I, red, out>>
+            /\ IF Norm2(red.r, red.k) <= inp.atol * inp.atol
+               THEN sol' = [num |-> [i \in 1..red.k |-> 0], den |-> 1, short |-> TRUE, exact |-> \A i \in 1..red.k : red.r[i] = 0]
+                    /\ pc' = "update"
+               ELSE pc' = "method" /\ UNCHANGED sol
+            /\ UNCHANGED <<inp, lhs, J, I, red, outcome, out>>
+
+ExactSol == [num |-> Cramer(red.B, red.k, red.r), den |-> Det(red.B, red.k), short |-> FALSE, exact |-> TRUE]
+DiagSol == [num |-> [i \in 1..red.k |-> red.r[i] * DiagProd(red.B, red.k, i)], den |-> DiagProd(red.B, red.k, 0), short |-> FALSE,
+            exact |-> \A i, j \in 1..red.k : i # j => red.B[i][j] = 0]
+StallSol == [num |-> [i \in 1..red.k |-> 0], den |-> 1, short |-> FALSE, exact |-> FALSE]
+
+\* the named solver method with the named preconditioner
+Method == /\ pc = "method"
+          /\ IF inp.precon = "direct"
+             THEN IF Det(red.B, red.k) = 0
+                  THEN outcome' = "MatrixError" /\ pc' = "done" /\ UNCHANGED sol
+                  ELSE sol' = ExactSol /\ pc' = "certify" /\ UNCHANGED outcome
+             ELSE IF \E i \in 1..red.k : red.B[i][i] = 0
+                  THEN outcome' = "MatrixError" /\ pc' = "done" /\ UNCHANGED sol           \* 'diag' preconditioner: diagonal has zero entries
+                  ELSE /\ \/ inp.solver = "direct" /\ sol' = DiagSol
+                          \/ inp.solver = "arnoldi" /\ Det(red.B, red.k) # 0 /\ sol' = ExactSol
+                          \/ inp.solver = "arnoldi" /\ sol' = StallSol                      \* Krylov iteration broke down / stalled
+                       /\ pc' = "certify" /\ UNCHANGED outcome
+          /\ UNCHANGED <<inp, lhs, J, I, red, out>>
+
+\* a-posteriori certification of whatever the method returned
+Certify == /\ pc = "certify"
+           /\ LET res == ResNum(red.B, red.k, red.r, sol.num, sol.den)
+                  toobig == Norm2(res, red.k) > inp.atol * inp.atol * sol.den * sol.den
+              IN IF inp.atol > 0 /\ toobig /\ (CertifyDirect \/ inp.solver # "direct")
+                 THEN outcome' = "ToleranceNotReached" /\ pc' = "done"
+                 ELSE pc' = "update" /\ UNCHANGED outcome
+           /\ UNCHANGED <<inp, lhs, J, I, red, sol, out>>
 
 \* position of free column j among the free columns
 Pos(j) == Cardinality({c \in Idx : J[c] /\ c <= j})
@@ -170,7 +212,7 @@ Update == /\ pc = "update"
           /\ outcome' = "return" /\ pc' = "done"
           /\ UNCHANGED <<inp, lhs, J, I, red, sol>>
 
-Next == Enter \/ DropPattern \/ Start \/ InitLhs \/ ColCons \/ RowCons \/ Reduce \/ SubSolve \/ Update
+Next == Enter \/ DropPattern \/ Start \/ InitLhs \/ ColCons \/ RowCons \/ Reduce \/ SubSolve \/ Method \/ Certify \/ Update
 Spec == Init /\ [][Next]_vars
 
 \* ------------------------------------------------------------------ properties
@@ -178,26 +220,35 @@ Returned == pc = "done" /\ outcome = "return"
 \* constrained entries exactly equal to their prescribed values
 ConsExact == Returned => \A j \in Idx : (inp.ck # "none" /\ inp.cm[j]) => out.num[j] = Prescribed(j) * out.den
 \* the free equations hold exactly (rows I; entries left NaN by solve_constraints count as 0 = not participating)
-FreeResidual == Returned => \A i \in Idx : I[i] =>
+FreeResidual == (Returned /\ sol.exact) => \A i \in Idx : I[i] =>
                    Dot(inp.A[i], [j \in Idx |-> IF out.nan[j] THEN 0 ELSE out.num[j]]) = inp.b[i] * out.den
+\* whatever the method: with a requested tolerance the returned free residual is within it (this is what Certify is for)
+OutRes == [i \in Idx |-> IF I[i] THEN inp.b[i] * out.den - Dot(inp.A[i], [j \in Idx |-> IF out.nan[j] THEN 0 ELSE out.num[j]]) ELSE 0]
+Certified == (Returned /\ inp.atol > 0) => Norm2(OutRes, N) <= inp.atol * inp.atol * out.den * out.den
+\* an exact method on a regular block never fails the tolerance
+NoSpuriousFailure == outcome = "ToleranceNotReached" => ~sol.exact
 \* for a regular free block the answer is the one obtained without any initial guess
 RefVec == [j \in Idx |-> IF inp.ck # "none" /\ inp.cm[j] THEN Prescribed(j) ELSE 0]
-IndepOfGuess == (Returned /\ inp.kind = "solve") =>
+IndepOfGuess == (Returned /\ inp.kind = "solve" /\ sol.exact) =>
                    LET k == Count(J) B == Block(inp.A, I, J) d == Det(B, k)
                        x == Cramer(B, k, RedRhs(inp.A, inp.b, RefVec, I))
                    IN d # 0 => \A j \in Idx : J[j] => out.num[j] * d = x[Pos(j)] * out.den
 \* a singular free block with a nonzero reduced right hand side never returns
-SingularRaises == Returned => (sol.short \/ Det(red.B, red.k) # 0)
+SingularRaises == (Returned /\ sol.exact) => (sol.short \/ Det(red.B, red.k) # 0)
 \* solve_constraints: NaN exactly where the influence on the functional is at most droptol
 NaNExact == (Returned /\ inp.kind # "solve") =>
                \A j \in Idx : out.nan[j] <=> (PriorFree[j] /\ \A i \in Idx : (inp.kind = "project" \/ PriorFree[i]) => Abs(inp.A[i][j]) <= inp.dtol)
-NoSilent == outcome \in {"none", "return", "MatrixError"}
+NoSilent == outcome \in {"none", "return", "MatrixError", "ToleranceNotReached"}
 DenNonZero == out.den # 0 /\ sol.den # 0
 
 Emit(x) == PrintT(<<"VF", ToJson(x)>>)
 Rows(a) == [i \in Idx |-> [j \in Idx |-> a[i][j]]]
 EmitTerminal == (Emitting /\ pc = "done") =>
                    Emit([inp |-> [inp EXCEPT !.A = Rows(inp.A)], outcome |-> outcome, num |-> out.num, den |-> out.den, nan |-> out.nan,
-                         cv |-> CV, short |-> sol.short, k |-> red.k, detB |-> IF red.k > 0 /\ red.B # <<>> THEN Det(red.B, red.k) ELSE 1,
+                         cv |-> CV, short |-> sol.short, exact |-> sol.exact,
+                         \* squared residual norm of the method's answer and the squared tolerance over the same denominator (an exact tie is
+                         \* decided by floating-point rounding in the code: the harness does not judge it)
+                         res2 |-> IF red.k > 0 /\ Len(sol.num) = red.k THEN Norm2(ResNum(red.B, red.k, red.r, sol.num, sol.den), red.k) ELSE 0,
+                         bound2 |-> inp.atol * inp.atol * sol.den * sol.den, k |-> red.k, detB |-> IF red.k > 0 /\ red.B # <<>> THEN Det(red.B, red.k) ELSE 1,
                          free |-> J, rows |-> I])
 =============================================================================
